@@ -49,6 +49,11 @@ Theorem C13_stack_status_before_body : forall head1 head2 pre ops,
   status_first false (spy_trace head1 head2 pre ops) = true.
 Proof. exact stack_status_first. Qed.
 
+Theorem C13_stack_head_no_body : forall head2 pre ops bs n,
+  forallb valid_op pre = true -> forallb valid_op ops = true ->
+  ~ In (UWrite bs n) (spy_trace true head2 pre ops).
+Proof. exact stack_head_no_body. Qed.
+
 Theorem C13_stack_upper_answers : forall head1 head2 ops s1 s2,
   filter is_ans (concat (stack_run_from head1 head2 (s1, s2) ops)) =
   filter is_ans (concat (run_from head2 s2 (map (view head1) ops))).
